@@ -20,7 +20,8 @@ META = {
         'and values, column keys, column-meta sizes and values, row count and every column of every row.  '
         'Also (D3): per-kind components of _approx_check (datetime: zone, date, time; Quantity: unit, value; Coordinate: latitude, longitude) all enter the comparison; the float branch is exact tests plus ONE absolute tolerance in [5e-7, 1e-6] (relative or operand-dependent bounds are violations); (D1) __hash__ reads a field through the same coarsening (round/lower/...) that __eq__ compares.  Also (D1): __ne__ written as `not self.__eq__(other)` is refused when __eq__ answers NotImplemented for foreign kinds.  Not decided: reflexivity/symmetry over all pairs as executions; the float tolerance itself.'
         " Also (D1): the unit test of Qty._cmp_op tells apart exactly the units __hash__ tells apart (decision table).  (D3) C16's refusal clause: nothing is written to a metadata/column map before the validator accepted the value, so a refused update cannot leave a key without value (Grid.__eq__ would raise KeyError)."
-        ' Also (D3): the first branch of _approx_check that a (bool, number) pair satisfies is the boolean branch.'),
+        ' Also (D3): the first branch of _approx_check that a (bool, number) pair satisfies is the boolean branch.'
+        ' Also (D1): Ref constructor / __eq__ / __hash__ evaluated over the six constructor states: equal references hash alike; with and without display string differ.'),
     'rule_text': 'one obligation per (class, rule) for 10 classes, per singleton fact, per _approx_check branch '
                  '(guard dominance), per coverage fact of Grid.__eq__',
     'trusted_base': ['Python falls back to the reflected __eq__ and then to identity when NotImplemented is returned; '
@@ -116,7 +117,63 @@ def _guard_of(fn, clsname):
     return None
 
 
+def _ref_states(ctx, m):
+    """(D1) Ref: over every state the constructor can produce -- value in {None, '', 'x'} x has_value in {False, True}
+    -- two references that __eq__ calls equal have the same __hash__ (hash(field) markers compared), and a reference
+    with a display string (the empty one included) differs from one without."""
+    from .. import minieval
+    from ..model import body_wo_doc as _bwd
+    try:
+        init = m.func(D, 'Ref.__init__')
+        eq = m.func(D, 'Ref.__eq__')
+        hs = m.func(D, 'Ref.__hash__')
+    except AnalysisError as e:
+        ctx.error('C19.D1', str(e))
+        return
+    a = [x.arg for x in init.args.args]
+    if len(a) != 4 or len(eq.args.args) != 2 or len(hs.args.args) != 1:
+        ctx.error('C19.D1', 'Ref: constructor / __eq__ / __hash__ signatures changed; cannot decide')
+        return
+    states = []
+    try:
+        for v in (None, '', 'x'):
+            for h in (False, True):
+                env = {a[0]: {}, a[1]: 'a', a[2]: v, a[3]: h}
+                minieval.run(_bwd(init), env)
+                states.append(((v, h), env[a[0]]))
+        bad = None
+        n_pairs = 0
+        for (k1, s1) in states:
+            for (k2, s2) in states:
+                n_pairs += 1
+                e_ = minieval.run(_bwd(eq), {eq.args.args[0].arg: s1, eq.args.args[1].arg: s2, '__types__': {'Ref': dict}})
+                h1 = minieval.run(_bwd(hs), {hs.args.args[0].arg: s1})
+                h2 = minieval.run(_bwd(hs), {hs.args.args[0].arg: s2})
+                if e_ is True and h1 != h2 and bad is None:
+                    bad = ('hash', k1, k2)
+                if e_ is True and (k1[0] is None) != (k2[0] is None) and bad is None:
+                    bad = ('dis', k1, k2)
+    except minieval.Undecided as e:
+        ctx.error('C19.D1', 'Ref: constructor / __eq__ / __hash__ not decidable over the constructor states (%s)' % e)
+        return
+    where = '%s:%d' % (FD, eq.lineno)
+    if bad is None:
+        ctx.ob('C19.D1', 'Ref: over the %d constructor states (%d pairs) equal references hash alike, and a reference with a '
+                         'display string never equals one without' % (len(states), n_pairs), True, where)
+        return True
+    else:
+        kind, k1, k2 = bad
+        ctx.violation('C19.D1', '%s::Ref.__eq__' % FD, 'Ref(\'a\', %r, %r) == Ref(\'a\', %r, %r)' % (k1[0], k1[1], k2[0], k2[1]),
+                      "Ref('a', %r%s) == Ref('a', %r%s) is True %s" % (
+                          k1[0], ', has_value=True' if k1[1] else '', k2[0], ', has_value=True' if k2[1] else '',
+                          'but their hashes differ (set() and == disagree on how many references there are)' if kind == 'hash'
+                          else 'although one has a display string and the other has none'),
+                      'Ref.__init__, __eq__ and __hash__ disagree over the states the constructor produces', file=FD, line=eq.lineno,
+                      engine='E7')
+
+
 def _value_classes(ctx, m):
+    ref_decided = _ref_states(ctx, m)
     n_eq = 0
     for cls in _classes(m, D):
         meths = _methods(cls)
@@ -219,7 +276,10 @@ def _value_classes(ctx, m):
         # (iv) after the guard: a single return of a comparison expression, no raising construct
         eq_fields = set()
         ok_body = len(rest) == 1 and isinstance(rest[0], ast.Return)
-        if not ok_body:
+        if not ok_body and name == 'Ref' and ref_decided:
+            # decided over the constructor states (above): the shape of the comparison is free
+            eq_fields = {'name', 'value', 'has_value'}
+        elif not ok_body:
             ctx.error('C19.D1', '%s.__eq__: body after the guard is not a single return' % name)
         else:
             for node in ast.walk(rest[0]):
